@@ -196,6 +196,102 @@ pub fn run_case(c: &SCase, stats: &mut Stats) -> Result<(), (String, String)> {
             }
         }
     }
+    staked_settings_cells(&w, stats)?;
+    Ok(())
+}
+
+/// Administration of the staked-collateral settings: `edit_staked_settings` obeys the group admin only;
+/// the permissionless `propagate_staked_settings` copies the GROUP's settings onto a STAKED bank of THAT group and
+/// onto nothing else (an ordinary bank in the bank slot, the settings account of another group): "substituting an
+/// account, bank ... that belongs to another group, bank or program is always rejected".
+fn staked_settings_cells(w: &World, stats: &mut Stats) -> Result<(), (String, String)> {
+    use anchor_lang::{InstructionData, ToAccountMetas};
+    use marginfi::instructions::marginfi_group::StakedSettingsEditConfig;
+    let settings = w.staked_settings_key();
+    let (sol, a) = (0usize, 1usize);
+    let edit = |signer: Pubkey, limit: u64| Instruction {
+        program_id: marginfi::ID,
+        accounts: marginfi::accounts::EditStakedSettings { marginfi_group: w.group, admin: signer, staked_settings: settings }.to_account_metas(Some(true)),
+        data: marginfi::instruction::EditStakedSettings { settings: StakedSettingsEditConfig { deposit_limit: Some(limit), ..Default::default() } }.data(),
+    };
+    let propagate = |group: Pubkey, st: Pubkey, bank: Pubkey, oracle: Pubkey| {
+        let mut m = marginfi::accounts::PropagateStakedSettings { marginfi_group: group, staked_settings: st, bank }.to_account_metas(Some(true));
+        m.push(AccountMeta::new_readonly(oracle, false));
+        Instruction { program_id: marginfi::ID, accounts: m, data: marginfi::instruction::PropagateStakedSettings {}.data() }
+    };
+    // (1) signer cells of edit_staked_settings
+    let r = &w.roles;
+    let wrong: Vec<(&'static str, Pubkey)> = vec![("stranger", r.stranger), ("emode_admin", r.emode), ("curve_admin", r.curve), ("limit_admin", r.limit), ("emissions_admin", r.emissions), ("risk_admin", r.risk), ("fee_admin", r.fee_admin), ("user", w.users[1].auth)];
+    for (who, k) in &wrong {
+        let mut vm: Vm = w.vm.clone();
+        stats.cells += 1;
+        if vm.exec(&edit(*k, 123_456_789)).is_ok() {
+            return Err((format!("auth:signer:edit_staked_settings:{who}"), format!("edit_staked_settings succeeded for signer {who}, who is not the group admin")));
+        }
+    }
+    let mut vm: Vm = w.vm.clone();
+    if vm.exec(&edit(r.admin, 123_456_789)).is_err() {
+        return Ok(());
+    }
+    stats.baseline_ok.push("edit_staked_settings");
+    // (2) propagate: baseline on the staked bank A, then every other bank / settings account in its place
+    let feed = w.banks[a].oracle_key;
+    {
+        let mut probe = vm.clone();
+        if probe.exec(&propagate(w.group, settings, w.banks[a].key, feed)).is_err() {
+            return Ok(());
+        }
+        stats.baseline_ok.push("propagate_staked_settings");
+    }
+    // an ordinary (SOL-tagged) bank of the same group in the bank slot
+    {
+        let mut probe = vm.clone();
+        let before = probe.data(&w.banks[sol].key).to_vec();
+        let ok = probe.exec(&propagate(w.group, settings, w.banks[sol].key, feed)).is_ok();
+        stats.cells += 1;
+        if ok || probe.data(&w.banks[sol].key) != before.as_slice() {
+            return Err(("auth:substitution:propagate_staked_settings:ordinary-bank".into(), "propagate_staked_settings was accepted for a bank that is not a staked-collateral bank (its configuration was overwritten by the staked settings, without any signature)".into()));
+        }
+    }
+    // the settings account of another group (anybody can create a group and its staked settings)
+    {
+        let mut probe = vm.clone();
+        let g2 = kp("c08b_foreign_group", 0);
+        let owner = w.users[2].auth;
+        let init_group = Instruction {
+            program_id: marginfi::ID,
+            accounts: marginfi::accounts::MarginfiGroupInitialize { marginfi_group: g2, admin: owner, fee_state: w.fee_state, system_program: solana_program::system_program::ID }.to_account_metas(Some(true)),
+            data: marginfi::instruction::MarginfiGroupInitialize {}.data(),
+        };
+        let st2 = Pubkey::find_program_address(&[b"staked_settings", g2.as_ref()], &marginfi::ID).0;
+        let init_settings = Instruction {
+            program_id: marginfi::ID,
+            accounts: marginfi::accounts::InitStakedSettings { marginfi_group: g2, admin: owner, fee_payer: owner, staked_settings: st2, system_program: solana_program::system_program::ID }.to_account_metas(Some(true)),
+            data: marginfi::instruction::InitStakedSettings {
+                settings: marginfi::instructions::marginfi_group::StakedSettingsConfig {
+                    oracle: feed,
+                    asset_weight_init: w_mill(999_000),
+                    asset_weight_maint: w_mill(1_000_000),
+                    deposit_limit: u64::MAX / 2,
+                    total_asset_value_init_limit: 0,
+                    oracle_max_age: 100,
+                    risk_tier: marginfi_type_crate::types::RiskTier::Collateral,
+                },
+            }
+            .data(),
+        };
+        if probe.exec(&init_group).is_ok() && probe.exec(&init_settings).is_ok() {
+            let before = probe.data(&w.banks[a].key).to_vec();
+            stats.cells += 2;
+            if probe.exec(&propagate(w.group, st2, w.banks[a].key, feed)).is_ok() || probe.data(&w.banks[a].key) != before.as_slice() {
+                return Err(("auth:substitution:propagate_staked_settings:foreign-settings".into(), "propagate_staked_settings copied the staked settings of ANOTHER group onto this group's bank".into()));
+            }
+            if probe.exec(&propagate(g2, st2, w.banks[a].key, feed)).is_ok() || probe.data(&w.banks[a].key) != before.as_slice() {
+                return Err(("auth:substitution:propagate_staked_settings:foreign-group".into(), "propagate_staked_settings (group and settings of another group) rewrote this group's bank".into()));
+            }
+            stats.baseline_ok.push("foreign-staked-settings-built");
+        }
+    }
     Ok(())
 }
 
